@@ -279,6 +279,17 @@ namespace {
       // One step: ask the implementation, ask the model, compare.  Returns false when the history cannot go on.
       bool apply(const Req& r)
       {
+         // a request the library must refuse (empty qualifier set): refused, and nothing else changes -- the requests that
+         // follow in the history are answered as if it had never been made
+         if (r.op == Qualified and r.a == 0) {
+            trace += "qualified({}, " + tyn(r.b) + ") refused; ";
+            rep.count("transitions");
+            bool refused = false;
+            try { (void) lex.get_qualified(ipr::Qualifiers{ }, *ty[r.b]); }
+            catch (...) { refused = true; }
+            if (not refused) { fail("C01:qualified:empty-set-answered", "get_qualified with an empty qualifier set returned a node"); return false; }
+            return true;
+         }
          int qual = 0, base = -1;
          const std::string k = key(r, qual, base);
          trace += render(r);
@@ -369,6 +380,7 @@ namespace {
       for (int i : T) a.push_back({ Rvalue_reference, i });
       for (int i : T) for (int b = 0; b < (breadth > 0 ? 2 : 1); ++b) a.push_back({ Array, i, b });
       for (int i : T) for (int m : (breadth > 0 ? std::vector<int>{ 1, 2, 3, 4, 5, 6, 7 } : std::vector<int>{ 1, 2, 3 })) a.push_back({ Qualified, m, i });
+      a.push_back({ Qualified, 0, T.back() });          // refused request
       // functions: P x {int, last type} x throws/xfer variants
       std::vector<int> FT = { 0 };
       if (t > 3) FT.push_back(t - 1); else FT.push_back(2);
